@@ -1,0 +1,28 @@
+//go:build verif
+
+package group
+
+// VerifTCPGroup is a snapshot of one TCPGroup (C09 correspondence harness).
+type VerifTCPGroup struct {
+	Port     int
+	RealPort int
+	Members  int
+}
+
+// VerifSnapshot returns the controller's group table: name -> requested port, real port and
+// number of member listeners.
+func (tgc *TCPGroupCtl) VerifSnapshot() map[string]VerifTCPGroup {
+	tgc.mu.Lock()
+	gs := make(map[string]*TCPGroup, len(tgc.groups))
+	for n, g := range tgc.groups {
+		gs[n] = g
+	}
+	tgc.mu.Unlock()
+	out := make(map[string]VerifTCPGroup, len(gs))
+	for n, g := range gs {
+		g.mu.Lock()
+		out[n] = VerifTCPGroup{Port: g.port, RealPort: g.realPort, Members: len(g.lns)}
+		g.mu.Unlock()
+	}
+	return out
+}
